@@ -55,6 +55,8 @@ class Renderer:
             return "T %d" % i
         if t == "S":
             return "S %d" % n["m"]
+        if t == "L":
+            return "echo \"l%d:$LINENO\"%s" % (i, " >&9" if self.use9 else "")
         if t == "brk":
             return "break" if n["n"] == 1 and i % 2 == 0 else "break %d" % n["n"]
         if t == "cont":
@@ -178,4 +180,6 @@ def marker(e):
         return "q%d.%d:%d" % (e[1], e[2], e[3])
     if t == "k":
         return "k%d.%d:%d" % (e[1], e[2], e[3])
+    if t == "l":
+        return "l%d:" % e[1]          # the line number is filled in from the rendered script (interp_check.line_map)
     raise ValueError(e)
